@@ -149,7 +149,7 @@ func (w *World) ruleFieldDispatchers(r *Report, rule string) {
 		emits ISet
 		what  string
 	}
-	objTags := ets["container:(*Encoder).writeObject"].Union(ets["container:(*Encoder).writeClsDef"]).Union(ets["date"]).Union(single('N')).Union(single(0x51))
+	objTags := ets["container:(*Encoder).writeObject"].Union(ets["container:classdef"]).Union(ets["date"]).Union(single('N')).Union(single(0x51))
 	listTags := ets["container:(*Encoder).writeList"].Union(ets["binary"]).Union(single('N')).Union(single(0x51))
 	checks := []chk{
 		{"(*Decoder).readStruct", objTags, "a struct-kind field (object, class definition, date, null, ref)"},
@@ -281,8 +281,8 @@ func rulesC02(w *World, r *Report) {
 	allowed := map[string]ISet{
 		"(*Encoder).writeList":   single(0x58).Union(single(0x56)).Union(mkSet(0x70, 0x77)).Union(mkSet(0x78, 0x7f)).Union(single(0x55)).Union(single(0x57)),
 		"(*Encoder).writeMap":    single('N').Union(single('M')).Union(single('H')).Union(single('Z')),
-		"(*Encoder).writeObject": single('O').Union(mkSet(0x60, 0x6f)),
-		"(*Encoder).writeClsDef": single('C'),
+		// the order of these octets within the production is C02.R3's business
+		"(*Encoder).writeObject": single('O').Union(mkSet(0x60, 0x6f)).Union(single('C')),
 		"(*Encoder).writeRef":    single(0x51),
 		"(*Encoder).WriteData":   single('N'),
 	}
@@ -297,7 +297,7 @@ func rulesC02(w *World, r *Report) {
 	w.ruleValuesPerIteration(r, "C02.R2 one value per iteration")
 
 	// R3 / R4 class definition
-	w.ruleClassDef(r, "C02.R3 definition before instance; index = position", "C02.R4 class and field names")
+	w.ruleObjectProduction(r, "C02.R3 definition before instance; index = position", "C02.R4 class and field names")
 
 	// R5 map framing
 	w.ruleMapFraming(r, "C02.R5 map terminator on every path")
@@ -306,212 +306,6 @@ func rulesC02(w *World, r *Report) {
 	w.ruleRefOrdinal(r, "C02.R6 back-reference carries the registrar's ordinal")
 	r.note("spec table digest %s", specDigest())
 	include(w, r, "C04")
-}
-
-// ruleClassDef.
-func (w *World) ruleClassDef(r *Report, ruleIdx, ruleNames string) {
-	wo, wc, ex := w.fn("(*Encoder).writeObject"), w.fn("(*Encoder).writeClsDef"), w.fn("(*Encoder).existClassDef")
-	if wo == nil || wc == nil || ex == nil {
-		r.undecided(ruleIdx, "writeObject/writeClsDef/existClassDef", "-", "anchor not found")
-		return
-	}
-	// definition before instance on the miss path
-	ok := false
-	fact := "no lookup-miss branch calling the definition writer found"
-	for _, c := range callsTo(wo, ex) {
-		for _, ref := range *c.Referrers() {
-			e1, isEx := ref.(*ssa.Extract)
-			if !isEx || e1.Index != 1 {
-				continue
-			}
-			for _, r2 := range *e1.Referrers() {
-				iff, isIf := r2.(*ssa.If)
-				if !isIf {
-					continue
-				}
-				miss := iff.Block().Succs[1]
-				if len(callsToIn(miss, wc)) > 0 {
-					// the instance header emissions are not reachable from the miss block before the call (same block)
-					ok = true
-					fact = "on the lookup miss the class definition is written (" + w.instrPos(callsToIn(miss, wc)[0]) + ") before control reaches the instance header"
-					// and its error is consumed
-					if cons, cf := w.errConsumed(callsToIn(miss, wc)[0], errOpts{}); !cons {
-						ok = false
-						fact = "the definition writer's error is dropped: " + cf
-					}
-				}
-			}
-		}
-	}
-	r.add(ruleIdx, "(*Encoder).writeObject · definition precedes the instance", w.pos(wo.Pos()), ok, fact)
-	// index = position: writeClsDef returns len(table) evaluated before the append
-	fc := w.flow(wc)
-	okIdx, factIdx := false, "writeClsDef does not return len(class table) read before the append"
-	for _, b := range wc.Blocks {
-		ret, isRet := b.Instrs[len(b.Instrs)-1].(*ssa.Return)
-		if !isRet || !isNilConst(ret.Results[len(ret.Results)-1]) {
-			continue
-		}
-		t := fc.term(ret.Results[0])
-		if t.K == TPure && t.Name == "len" && strings.HasPrefix(t.Args[0].Key(), "<fld:") {
-			lenCall := ret.Results[0].(ssa.Instruction)
-			// the append store comes after the len call
-			before := false
-			for _, bb := range wc.Blocks {
-				for _, in := range bb.Instrs {
-					if in == lenCall {
-						before = true
-					}
-					if st, isSt := in.(*ssa.Store); isSt {
-						if fa, isFA := st.Addr.(*ssa.FieldAddr); isFA && strings.HasPrefix(w.fieldNameOfAddr(fa), "Encoder.") {
-							if c, isC := st.Val.(*ssa.Call); isC {
-								if bi, isB := c.Call.Value.(*ssa.Builtin); isB && bi.Name() == "append" {
-									if before && (bb == lenCall.Block() || lenCall.Block().Dominates(bb)) {
-										okIdx = true
-										factIdx = "returns len(class table) read at " + w.instrPos(lenCall) + " before the append at " + w.instrPos(st)
-									}
-								}
-							}
-						}
-					}
-				}
-			}
-		}
-	}
-	r.add(ruleIdx, "(*Encoder).writeClsDef · returned index = position of the new definition", w.pos(wc.Pos()), okIdx, factIdx)
-	// existClassDef returns the loop index of the match
-	fe := w.flow(ex)
-	okEx := false
-	for _, b := range ex.Blocks {
-		ret, isRet := b.Instrs[len(b.Instrs)-1].(*ssa.Return)
-		if !isRet {
-			continue
-		}
-		if k, isC := ret.Results[1].(*ssa.Const); isC && k.Value != nil && k.Value.ExactString() == "true" {
-			if phi, isPhi := ret.Results[0].(*ssa.Phi); isPhi {
-				// the same φ indexes the table in the comparison
-				for _, ref := range *phi.Referrers() {
-					if ia, isIA := ref.(*ssa.IndexAddr); isIA {
-						if _, _, okf := w.fieldOfLoad(ia.X); okf {
-							okEx = true
-						}
-					}
-				}
-			}
-			_ = fe
-		}
-	}
-	r.add(ruleIdx, "(*Encoder).existClassDef · returns the index of the matching entry", w.pos(ex.Pos()), okEx, "the value returned with ok=true is the loop index used to read the compared entry")
-
-	// names
-	// field-name loop in writeClsDef
-	okNames, factNames := false, "no writeString(lowerName(typ.Field(i).Name)) in the definition loop"
-	okCount, factCount := false, "field count written is not the bound of the name loop"
-	var loopBound string
-	var counter *ssa.Phi
-	for _, b := range wc.Blocks {
-		if iff, isIf := b.Instrs[len(b.Instrs)-1].(*ssa.If); isIf {
-			if bo, isBO := iff.Cond.(*ssa.BinOp); isBO && bo.Op == token.LSS {
-				if phi, isPhi := bo.X.(*ssa.Phi); isPhi {
-					loopBound, counter = fc.term(bo.Y).Key(), phi
-				}
-			}
-		}
-	}
-	for _, cs := range w.callSitesIn(wc) {
-		if cs.callee == "(*Encoder).writeInt" {
-			t := fc.term(cs.call.Call.Args[1])
-			for t.K == TConv {
-				t = t.A
-			}
-			if t.Key() == loopBound && loopBound != "" {
-				// and the bound is len of a slice made with NumField elements
-				if t.K == TPure && t.Name == "len" {
-					if ms, isMS := t.Args[0].V.(*ssa.MakeSlice); isMS && strings.Contains(fc.term(ms.Len).Key(), "NumField") {
-						okCount = true
-						factCount = "count written = " + t.Key() + " = NumField of the type = bound of the name loop"
-					}
-				}
-			}
-		}
-	}
-	if counter != nil {
-		// counter: φ(0, counter+1)
-		asc := false
-		for i := range counter.Edges {
-			if k, isC := counter.Edges[i].(*ssa.Const); isC && k.Int64() == 0 {
-				t := fc.term(counter.Edges[1-i])
-				if t.K == TBin && t.Op == token.ADD && t.A.Key() == fc.term(counter).Key() && t.B.K == TConst && t.B.C.Int64() == 1 {
-					asc = true
-				}
-			}
-		}
-		for _, lp := range naturalLoops(wc) {
-			for _, cs := range w.callSitesIn(wc) {
-				if cs.callee != "(*Encoder).writeString" || !lp.body[cs.call.Block()] {
-					continue
-				}
-				// the string written is fldList[counter], which was stored from lowerName(typ.Field(counter).Name)
-				v := cs.call.Call.Args[1]
-				src := traceStoredElement(v, counter)
-				if src == nil {
-					src = v
-				}
-				if ex0, isEx := src.(*ssa.Extract); isEx && ex0.Index == 0 {
-					if c, isC := ex0.Tuple.(*ssa.Call); isC && c.Call.StaticCallee() != nil && fnName(c.Call.StaticCallee()) == "lowerName" {
-						if fld, isF := c.Call.Args[0].(*ssa.Field); isF {
-							if fc2, isC2 := fld.X.(*ssa.Call); isC2 && fc2.Call.IsInvoke() && fc2.Call.Method.Name() == "Field" && len(fc2.Call.Args) == 1 && fc2.Call.Args[0] == ssa.Value(counter) && fld.Field == 0 {
-								okNames = asc
-								factNames = fmt.Sprintf("writes lowerName(typ.Field(i).Name) for the loop counter i ascending from 0 by 1 (ascending=%v)", asc)
-							}
-						}
-					}
-				}
-			}
-		}
-	}
-	r.add(ruleNames, "(*Encoder).writeClsDef · field count", w.pos(wc.Pos()), okCount, factCount)
-	r.add(ruleNames, "(*Encoder).writeClsDef · field names", w.pos(wc.Pos()), okNames, factNames)
-	w.ruleCaseHelper(r, ruleNames, "lowerName", 'A', 'Z', 32)
-	// class name: writeClsDef's clsName argument at the call in writeObject is φ(nameMap[typ.Name()], typ.Name())
-	fo := w.flow(wo)
-	okCls, factCls := false, "the class name passed to the definition writer is not the name-map value / the type name"
-	for _, c := range callsTo(wo, wc) {
-		name := c.Call.Args[2]
-		leaves := phiLeaves(name, nil, map[ssa.Value]bool{})
-		good := 0
-		for _, lf := range leaves {
-			k := fo.term(lf).Key()
-			if strings.Contains(k, "(reflect.Type).Name") {
-				good++
-				continue
-			}
-			if ex0, isEx := lf.(*ssa.Extract); isEx && ex0.Index == 0 {
-				if lk, isLk := ex0.Tuple.(*ssa.Lookup); isLk {
-					if o, _, okf := w.fieldOfLoad(lk.X); okf && o == "Encoder" && strings.Contains(fo.term(lk.Index).Key(), "(reflect.Type).Name") {
-						good++
-					}
-				}
-			}
-		}
-		if good == len(leaves) && good > 0 {
-			okCls = true
-			factCls = "class name = nameMap[typ.Name()] or typ.Name() on a miss"
-		}
-		// the first string written in writeClsDef is that parameter
-		first := ""
-		for _, cs := range w.callSitesIn(wc) {
-			if cs.callee == "(*Encoder).writeString" {
-				first = fc.term(cs.call.Call.Args[1]).Key()
-				break
-			}
-		}
-		if first != "<p:clsName>" {
-			okCls = false
-			factCls += "; the first string of the definition is " + first + ", not the class name"
-		}
-	}
-	r.add(ruleNames, "(*Encoder).writeObject → writeClsDef · class name", w.pos(wo.Pos()), okCls, factCls)
 }
 
 // traceStoredElement: v is a load of s[counter]; find the value stored to
